@@ -182,6 +182,7 @@ package turn
 
 //@ func (*Client).Close
 //@   requires clientReady(c)
+//@   at-call (*TransactionMap).CloseAndDeleteAll assert [C12,C18:teardown-under-lock] held(c.mutexTrMap)
 //@   ensures [C12:close-empties-table] forall k :: !haskey(c.trMap.trMap, k)
 //@   ensures [C12:close-completes-all] forall k :: old(haskey(c.trMap.trMap, k)) && old(valat(c.trMap.trMap, k)).resultCh != nil ==> closed(old(valat(c.trMap.trMap, k)).resultCh)
 
